@@ -237,7 +237,44 @@ func (e *Exec) symTime(name string) Value {
 		e.assume(fmt.Sprintf("(bvult %s (_ bv1000000000 64))", ns))
 		e.assume(fmt.Sprintf("(and (bvslt %s (_ bv36028797018963968 64)) (bvsgt %s (bvneg (_ bv36028797018963968 64))))", ext, ext))
 	}
-	return &StructV{F: []Value{&BV{T: ns, W: 64}, &BV{T: ext, W: 64}, &PtrV{}}}
+	return &StructV{F: []Value{&BV{T: ns, W: 64}, &BV{T: ext, W: 64}, e.symLocation(name)}}
+}
+
+// symLocation: nil (UTC) or - when Bounds["timeloc"] is set - possibly a fixed
+// zone with an arbitrary offset of less than a day, which is what DER times
+// written with a +hhmm offset parse to.  The struct mirrors time.FixedZone:
+// one zone, one transition, cache covering all of time.
+func (e *Exec) symLocation(name string) Value {
+	if e.cfg.Bounds["timeloc"] == 0 {
+		return &PtrV{}
+	}
+	key := "loc#" + name
+	if v, ok := e.lazyMemo[key]; ok {
+		return v
+	}
+	fz := quoteSym(name + "!fixedzone")
+	e.declareInput(fz, "Bool")
+	var out Value = &PtrV{}
+	if e.branch(&BoolV{T: fz}) {
+		off := quoteSym(name + "!offset")
+		e.declareInput(off, "(_ BitVec 64)")
+		e.assume(fmt.Sprintf("(and (bvslt %s (_ bv86400 64)) (bvsgt %s (bvneg (_ bv86400 64))))", off, off))
+		tp := e.findPkg("time")
+		if tp == nil || tp.Type("Location") == nil {
+			e.unsupported("time.Location not loaded")
+		}
+		zone := &StructV{F: []Value{cstr("zz"), &BV{T: off, W: 64}, cbool(false)}}
+		zarr := e.newObj(&ArrayV{E: []Value{zone}}, "loc:zones")
+		tx := &StructV{F: []Value{cbv(1<<63, 64), cbv(0, 8), cbool(false), cbool(false)}}
+		tarr := e.newObj(&ArrayV{E: []Value{tx}}, "loc:tx")
+		loc := &StructV{F: []Value{cstr("zz"),
+			&SliceV{O: zarr, Len: cbv(1, 64), Cap: 1},
+			&SliceV{O: tarr, Len: cbv(1, 64), Cap: 1},
+			cstr(""), cbv(1<<63, 64), cbv(1<<63-1, 64), &PtrV{O: zarr, Path: []int{0}}}}
+		out = &PtrV{O: e.newObj(loc, "loc:"+name)}
+	}
+	e.lazyMemo[key] = out
+	return out
 }
 
 // lazySliceInvariants adds parser invariants tied to specific slice types.
